@@ -289,6 +289,49 @@ def m_id(m, w, d):
 M_FAMILY = sorted({m_id(m, w, d) for m in (1, 2, 3, 4, 12) for w in (1, 2, 3, 4, 5) for d in (0, 3, 6)})
 
 
+def j_id(n):
+    return n            # Jn, n = 1..365
+
+
+def z_id(n):
+    return 366 + n      # zero-based n, n = 0..365
+
+
+def c11_pairs(rng, quick):
+    """Ordered pairs of day-notation ids for C11: the structural families in which the constructor's case analysis has its
+    breakpoints (year wrap, month boundaries, same/adjacent months, Feb 28/29), both orders, plus a seeded random sample."""
+    CUM = [0, 31, 59, 90, 120, 151, 181, 212, 243, 273, 304, 334, 365]
+    pairs = set()
+    def both(a, b):
+        pairs.add((a, b)); pairs.add((b, a))
+    early = [j_id(1), j_id(2), j_id(7), j_id(8), z_id(0), z_id(1), z_id(6)] + [m_id(1, w, d) for w in (1, 2) for d in (0, 3, 6)]
+    late = [j_id(365), j_id(364), j_id(358), z_id(365), z_id(364), z_id(358)] + [m_id(12, w, d) for w in (4, 5) for d in (0, 3, 6)]
+    for a in early:
+        for b in late:
+            both(a, b)                                                          # the year wrap
+    months = range(1, 13) if not quick else rng.sample(range(1, 13), 5) + [2]
+    for m in months:
+        lo, hi = CUM[m - 1] + 1, CUM[m]                                          # Julian days (1-based, common year) of month m
+        jdays = [lo, lo + 6, lo + 7, lo + 13, lo + 14, lo + 20, lo + 21, hi - 7, hi - 6, hi, hi + 1, lo - 1]
+        for jd in jdays:
+            if 1 <= jd <= 365:
+                for w in (1, 2, 4, 5):
+                    for d in ((0, 6) if quick else (0, 3, 6)):
+                        both(j_id(jd), m_id(m, w, d))
+                        both(z_id(jd - 1), m_id(m, w, d))
+                        if m < 12 and jd >= hi - 7:
+                            both(j_id(jd), m_id(m + 1, 1, d))
+    for (a, b) in [(59, 60), (60, 61), (58, 59)]:
+        both(j_id(a), j_id(b)); both(j_id(a), z_id(b)); both(z_id(a), z_id(b)); both(z_id(a - 1), j_id(b)); both(j_id(a), z_id(a)); both(j_id(b), z_id(b - 1))
+    fam = M_FAMILY if not quick else rng.sample(M_FAMILY, 40)
+    for a in fam:
+        for b in fam:
+            pairs.add((a, b))                                                    # same / adjacent months, Dec/Jan
+    for _ in range(300 if quick else 3000):
+        pairs.add((rng.choice(ALL_DAY_IDS), rng.choice(ALL_DAY_IDS)))
+    return pairs
+
+
 def group_by_zone(raw, out, ops=None):
     groups, order = {}, []
     for l in open(raw):
@@ -332,16 +375,16 @@ def check_C11(tier, seed):
     rng = random.Random(seed * 7919 + 11)
     q = tier == "quick"
     raw = os.path.join(C.OUT, "C11-vectors-raw.ndjson")
-    starts = sorted(set(rng.sample(STRUCT_DAY_IDS, 8 if q else 29) + rng.sample(M_FAMILY, 10 if q else 40) + rng.sample(ALL_DAY_IDS, 8 if q else 100)))
-    ends = sorted(set(STRUCT_DAY_IDS + rng.sample(M_FAMILY, 25 if q else 75) + rng.sample(ALL_DAY_IDS, 15 if q else 200)))
+    pairs = c11_pairs(rng, q)
+    enc = lambda ps: tla_set(sorted({s * 2000 + e for (s, e) in ps}))
     # literal 400-year definition on a sub-sample, derived decision on all selected pairs
-    res.add_mc(run_mc("MC_Cons", dict(StartIds=tla_set(rng.sample(starts, 4)), EndIds=tla_set(rng.sample(ends, 12)), EmitVec="FALSE", Literal="TRUE"), workers=C.NCPU, tag="C11-literal", timeout=3000))
-    res.add_mc(run_mc("MC_Cons", dict(StartIds=tla_set(starts), EndIds=tla_set(ends), EmitVec="TRUE", Literal="FALSE"), workers=C.NCPU, vec_out=raw, timeout=6000, xmx="12g"))
+    res.add_mc(run_mc("MC_Cons", dict(Pairs=enc(rng.sample(sorted(pairs), 48)), EmitVec="FALSE", Literal="TRUE"), workers=C.NCPU, tag="C11-literal", timeout=3000))
+    res.add_mc(run_mc("MC_Cons", dict(Pairs=enc(pairs), EmitVec="TRUE", Literal="FALSE"), workers=C.NCPU, vec_out=raw, timeout=6000, xmx="12g"))
     run_pipeline(res, binary, "vec", vec_path=raw, validate=False)
     os.remove(raw)
     run_pipeline(res, binary, "rules", gen_lines=gens.gen_c11(rng, 6000 if q else 100000), nshards=12 if q else 16)
     res.notes["rule"] = "vectors: for each selected ordered pair of day notations, the constructor is called at every decision breakpoint k*86400 + {-1,0,1} of d (several time/offset splits incl. window edges); events: seeded rules (80% with start/end days within 20 days), window-edge offsets and times, invalid rule days"
-    res.notes["pairs_selected"] = len(starts) * len(ends)
+    res.notes["pairs_selected"] = len(pairs)
     if not q:
         # every ordered pair of the 1 151 day notations: TLC prints, per pair, the verdict at every decision breakpoint of d
         # (16 JVMs, each a range of start ids); a native sweep calls the real constructor at each of them through six splits
